@@ -133,6 +133,7 @@ class Interp:
         prev = re_mod._executor
         prev_state = None
         pinfo = self._info_of(prev) if prev is not None else None
+        old_pids = sorted(prev._processes) if prev is not None else []
         req = kw.get("max_workers")
         if pinfo is not None and req is not None:
             pinfo["inflight"].append(req)
@@ -167,7 +168,7 @@ class Interp:
         procs = ex._processes
         if prev_state is not None:
             prev_state = {k: v for k, v in prev_state.items() if k != "ident"}
-        return dict(n=known["n"], id=ex.executor_id, same=(prev is ex), prev=prev_state,
+        return dict(n=known["n"], id=ex.executor_id, same=(prev is ex), prev=prev_state, old_pids=old_pids,
                     old=alive_old, max_workers=ex._max_workers,
                     broken=ex._flags.broken is not None, shutdown=ex._flags.shutdown,
                     pids=sorted(procs), alive=sorted(p for p in procs if k.procs[p].alive),
@@ -312,7 +313,7 @@ class Interp:
                     workers_alive=[p for p in pids if k.procs[p].alive],
                     desc_alive=[p for p in desc if k.procs[p].alive],
                     zombies=[p for p in pids if not k.procs[p].alive and not k.procs[p].reaped],
-                    exn=info["n"])
+                    exn=info["n"], pids=pids)
 
     def op_with(self, th, o):
         ex = self.slots.get(o["ex"])
